@@ -313,3 +313,105 @@ package appencryption
 //@   ensures [C14:racers-in-one-window-collide] truncate > 0 ==> result == ((now() / int(truncate)) * int(truncate)) / 1000000000
 //@   ensures [C14:no-truncation-without-precision] truncate <= 0 ==> result == now() / 1000000000
 //@   ensures [C04:stamp-not-in-future] truncate >= 0 ==> result * 1000000000 <= now()
+
+// =====================================================================================================
+// keyCache: the in-repo implementation of keyCacher, verified against the interface contract above.
+// =====================================================================================================
+
+// The backing store (simpleCache or pkg/cache) through its interface contract: an abstract map.
+//@ ghost field cdom(cache.Interface) set[string]
+//@ ghost field cval(cache.Interface) map[string]cacheEntry
+
+//@ iface cache.Interface[string,appencryption.cacheEntry].Get
+//@   names key
+//@   ensures ret1 == cdom(this)[key]
+//@   ensures ret1 ==> result == cval(this)[key]
+
+// Set stores the entry; other entries may leave (eviction) but none is added or changed.
+//@ iface cache.Interface[string,appencryption.cacheEntry].Set
+//@   names key, value
+//@   modifies cdom(this), cval(this)
+//@   ensures cdom(this)[key] && cval(this)[key] == value
+//@   ensures forall k string :: k != key && cdom(this)[k] ==> old(cdom(this))[k] && cval(this)[k] == old(cval(this))[k]
+
+//@ iface cache.Interface[string,appencryption.cacheEntry].Len
+//@   pure
+//@ iface cache.Interface[string,appencryption.cacheEntry].Capacity
+//@   pure
+//@ iface cache.Interface[string,appencryption.cacheEntry].Close
+//@   modifies cdom(this), cval(this)
+
+// cacheKey is treated as an injective pairing ck(id, created). (It is id+decimal(created): injective for ids that
+// share their trailing "_"-led segment - one service/product/region - which is every id one factory produces;
+// see DESIGN.md C01 residual for ids of different region suffixes in one shared cache.)
+//@ spec fn ck(id string, c int64) string
+//@ spec fn ckid(k string) string
+//@ spec fn ckc(k string) int64
+//@ axiom [cacheKey-injective] forall a string, x int64 :: ckid(ck(a, x)) == a && ckc(ck(a, x)) == x
+//@ func cacheKey
+//@   trusted
+//@   pure
+//@   ensures result == ck(id, create)
+
+// Monitor: rw guards the latest-alias map and the contents of the backing store.
+//@ monitor (*keyCache).rw
+//@   facet C08
+//@   guards latest
+//@   havocs cdom(this.keys), cval(this.keys)
+//@   invariant [wired] this.keys != nil && this.latest != nil && this.policy != nil
+//@   invariant [entries-well-formed] forall k string :: cdom(this.keys)[k] ==> wfCK(cval(this.keys)[k].key) && valid(cval(this.keys)[k].key) && valid(cval(this.keys)[k].key.CryptoKey)
+//@   invariant [entries-backed] forall id string, c int64 :: cdom(this.keys)[ck(id, c)] ==> ms[id][cval(this.keys)[ck(id, c)].key.CryptoKey.created]
+//@   invariant [latest-alias-keeps-id] forall id string :: ck(id, 0) in this.latest ==> this.latest[ck(id, 0)].ID == id
+//@ immutable (keyCache).keys, (keyCache).latest, (keyCache).policy
+
+//@ func (*keyCache).GetOrLoad
+//@   facet C02, C14, C07, C08
+//@   safety C07
+//@   opt no-frame
+//@   param loader keyLoader
+//@   requires c != nil && c.rw == 0 && loader != nil
+//@   requires loaderFor(loader, id.ID)
+//@   ensures [C08:lock-released] c.rw == 0
+//@   ensures [C02:ms-only-grows] msGrows(old(ms), ms)
+//@   ensures [C02:error-returns-nil] (err == nil) == (result != nil)
+//@   ensures [C02,C14:cache-returns-backed-key] err == nil ==> wfCK(result) && ms[id.ID][result.CryptoKey.created]
+
+//@ func (*keyCache).GetOrLoadLatest
+//@   facet C02, C14, C07, C08
+//@   safety C07
+//@   opt no-frame
+//@   param loader keyLoader
+//@   requires c != nil && c.rw == 0 && loader != nil
+//@   requires loaderFor(loader, id)
+//@   ensures [C08:lock-released] c.rw == 0
+//@   ensures [C02:ms-only-grows] msGrows(old(ms), ms)
+//@   ensures [C02:error-returns-nil] (err == nil) == (result != nil)
+//@   ensures [C02,C14:cache-returns-backed-key] err == nil ==> wfCK(result) && ms[id][result.CryptoKey.created]
+
+//@ func (neverCache).GetOrLoad
+//@   facet C02, C14, C07
+//@   safety C07
+//@   opt no-frame
+//@   param loader keyLoader
+//@   requires loader != nil && loaderFor(loader, id.ID)
+//@   ensures [C02:ms-only-grows] msGrows(old(ms), ms)
+//@   ensures [C02:error-returns-nil] (err == nil) == (result != nil)
+//@   ensures [C02,C14:cache-returns-backed-key] err == nil ==> wfCK(result) && ms[id.ID][result.CryptoKey.created]
+
+//@ func (neverCache).GetOrLoadLatest
+//@   facet C02, C14, C07
+//@   safety C07
+//@   opt no-frame
+//@   param loader keyLoader
+//@   requires loader != nil && loaderFor(loader, id)
+//@   ensures [C02:ms-only-grows] msGrows(old(ms), ms)
+//@   ensures [C02:error-returns-nil] (err == nil) == (result != nil)
+//@   ensures [C02,C14:cache-returns-backed-key] err == nil ==> wfCK(result) && ms[id][result.CryptoKey.created]
+
+// ---- C08: a reference on a cached key is taken only while something pins the key: the lock of the cache that
+// holds it (whose entry owns a reference, so refs >= 1 and the key cannot be destroyed), or a reference the caller owns ----
+
+//@ func (*cachedCryptoKey).increment
+//@   facet C08
+//@   requires [C08:increment-needs-pinned-ref] heldlocks >= 1
+//@   requires c != nil && c.refs != nil
